@@ -99,31 +99,31 @@ func (j *rjob) waitFinished(n int, d time.Duration) bool {
 	return true
 }
 
-// onceJob signals its (first) execution.
-type onceJob struct {
+// retryOnceJob signals its (first) execution.
+type retryOnceJob struct {
 	n    atomic.Int32
 	done chan struct{}
 }
 
-func (j *onceJob) Execute(context.Context) error {
+func (j *retryOnceJob) Execute(context.Context) error {
 	if j.n.Add(1) == 1 {
 		close(j.done)
 	}
 	return nil
 }
-func (j *onceJob) Description() string { return "sibling" }
+func (j *retryOnceJob) Description() string { return "sibling" }
 
-// listTrig answers with the given fire times in turn, then fails (the job leaves the queue). When gate
+// retryListTrig answers with the given fire times in turn, then fails (the job leaves the queue). When gate
 // is set the failing call first waits for the gate: the execution loop is held exactly where it is about
 // to dispatch the last scheduled execution.
-type listTrig struct {
+type retryListTrig struct {
 	mu    sync.Mutex
 	times []int64
 	n     int
 	gate  chan struct{}
 }
 
-func (t *listTrig) NextFireTime(int64) (int64, error) {
+func (t *retryListTrig) NextFireTime(int64) (int64, error) {
 	t.mu.Lock()
 	i := t.n
 	t.n++
@@ -139,17 +139,17 @@ func (t *listTrig) NextFireTime(int64) (int64, error) {
 	}
 	return 0, errRetryScript
 }
-func (t *listTrig) Description() string { return "list" }
+func (t *retryListTrig) Description() string { return "list" }
 
-// capLog keeps the scheduler's log lines about job executions.
-type capLog struct {
+// retryLog keeps the scheduler's log lines about job executions.
+type retryLog struct {
 	mu sync.Mutex
-	ev []logEv
+	ev []retryLogEv
 	ch chan struct{}
 }
-type logEv struct{ msg, key string }
+type retryLogEv struct{ msg, key string }
 
-func (l *capLog) rec(msg string, args []any) {
+func (l *retryLog) rec(msg string, args []any) {
 	if msg != "Job retry" && msg != "Job terminated" && msg != "Job panicked" {
 		return
 	}
@@ -160,21 +160,21 @@ func (l *capLog) rec(msg string, args []any) {
 		}
 	}
 	l.mu.Lock()
-	l.ev = append(l.ev, logEv{msg, key})
+	l.ev = append(l.ev, retryLogEv{msg, key})
 	l.mu.Unlock()
 	select {
 	case l.ch <- struct{}{}:
 	default:
 	}
 }
-func (l *capLog) Trace(msg string, args ...any) { l.rec(msg, args) }
-func (l *capLog) Debug(string, ...any)          {}
-func (l *capLog) Info(string, ...any)           {}
-func (l *capLog) Warn(msg string, args ...any)  { l.rec(msg, args) }
-func (l *capLog) Error(msg string, args ...any) { l.rec(msg, args) }
+func (l *retryLog) Trace(msg string, args ...any) { l.rec(msg, args) }
+func (l *retryLog) Debug(string, ...any)          {}
+func (l *retryLog) Info(string, ...any)           {}
+func (l *retryLog) Warn(msg string, args ...any)  { l.rec(msg, args) }
+func (l *retryLog) Error(msg string, args ...any) { l.rec(msg, args) }
 
 // counts of (retry, terminated, panicked) lines for key from index `from`; also the current length
-func (l *capLog) counts(key string, from int) (int, int, int, int) {
+func (l *retryLog) counts(key string, from int) (int, int, int, int) {
 	l.mu.Lock()
 	defer l.mu.Unlock()
 	var r, t, p int
@@ -196,7 +196,7 @@ func (l *capLog) counts(key string, from int) (int, int, int, int) {
 
 // waitFor waits until the lines for key logged from index `from` on satisfy want; it gives up when d has
 // passed or when abort reports that waiting is pointless.
-func (l *capLog) waitFor(key string, from int, want func(r, t, p int) bool, d time.Duration, abort func() bool) bool {
+func (l *retryLog) waitFor(key string, from int, want func(r, t, p int) bool, d time.Duration, abort func() bool) bool {
 	deadline := time.NewTimer(d)
 	defer deadline.Stop()
 	for {
@@ -294,7 +294,7 @@ func runRetryCase(c retryCase, long time.Duration) retryResult {
 	flagV := func(format string, a ...any) {
 		res.viol = append(res.viol, "C13 "+fmt.Sprintf(format, a...)+" ["+desc+"]")
 	}
-	lg := &capLog{ch: make(chan struct{}, 1)}
+	lg := &retryLog{ch: make(chan struct{}, 1)}
 	opts := []quartz.SchedulerOpt{quartz.WithLogger(lg), quartz.WithOutdatedThreshold(time.Minute)}
 	switch c.mode {
 	case 0:
@@ -320,10 +320,10 @@ func runRetryCase(c retryCase, long time.Duration) retryResult {
 	}
 	twoRounds := end1 == "recovered"
 	now := quartz.NowNano()
-	trig := &listTrig{times: []int64{now}}
+	trig := &retryListTrig{times: []int64{now}}
 	if twoRounds {
 		// a second fire time right after the first; its dispatch is held until the first execution is over
-		trig = &listTrig{times: []int64{now, now + 1}, gate: make(chan struct{})}
+		trig = &retryListTrig{times: []int64{now, now + 1}, gate: make(chan struct{})}
 	}
 	if err := s.ScheduleJob(jd, trig); err != nil {
 		flagV("ScheduleJob failed: %v", err)
@@ -414,8 +414,8 @@ func runRetryCase(c retryCase, long time.Duration) retryResult {
 		}
 	}
 	if !cancelled {
-		sib := &onceJob{done: make(chan struct{})}
-		if err := s.ScheduleJob(quartz.NewJobDetail(sib, quartz.NewJobKey("sibling")), &listTrig{times: []int64{quartz.NowNano()}}); err != nil {
+		sib := &retryOnceJob{done: make(chan struct{})}
+		if err := s.ScheduleJob(quartz.NewJobDetail(sib, quartz.NewJobKey("sibling")), &retryListTrig{times: []int64{quartz.NowNano()}}); err != nil {
 			flagV("scheduling a sibling job afterwards failed: %v", err)
 		} else {
 			select {
